@@ -23,7 +23,7 @@ def check(ctx):
     thorough = ctx.tier == "thorough"
     vlib.build_harness(ctx)
     tr = os.path.join(ctx.work, "c11.ndjson")
-    vlib.vdrive(ctx, ["sql", "c11", tr, 2000 if thorough else 150], timeout=3000, ok_codes=(0, 3))
+    vlib.vdrive_resumable(ctx, ["sql", "c11", tr, 2000 if thorough else 150], tr, timeout=3000)
     res = vlib.validate(ctx, FAM, "SqlModelTrace", "Trace.cfg", tr, name="val-c11", timeout=3400)
     judge(ctx, res, tr, "join queries")
     c = count_events(tr)
